@@ -96,6 +96,8 @@ def move_archives(r, files):
     for k, f in enumerate(files):
         if f["kind"] == "ar" and ok_group[f["group"]]:
             groups.setdefault(f["group"], []).append(k)
+        elif f["kind"] == "ar" and rest and files[rest[-1][-1]]["kind"] == "ar" and files[rest[-1][-1]]["group"] == f["group"] and rest[-1][-1] == k - 1:
+            rest[-1].append(k)     # an archive that stays is one block too: its members are never separated
         else:
             rest.append([k])
     if not groups:
@@ -134,6 +136,16 @@ def run(ctx):
         else:
             kind = "race" if i % 5 == 0 else "mixed"
             files = gen_race(r) if kind == "race" else c02.gen_input(r, ctx.quick)
+            if kind == "mixed" and r.chance(1, 3):
+                # one archive (two times out of three a THIN one) is put into a --whole-archive region: all its members take part
+                gs = sorted({f["group"] for f in files if f["kind"] == "ar"})
+                if gs:
+                    gsel = r.choice(gs)
+                    thin = r.chance(2, 3)
+                    for f in files:
+                        if f["kind"] == "ar" and f["group"] == gsel:
+                            f["whole"], f["thin"] = True, thin
+                    kind = "whole-thin" if thin else "whole"
             try:
                 line = lm.build_inputs(d, files)
             except RuntimeError:
